@@ -8,12 +8,17 @@ Defects of the current code: `Sqfs/Witness/C01.lean`.
 -/
 import Sqfs.Proofs.EncInodeRT
 import Sqfs.Proofs.EncWf
+import Sqfs.Proofs.EncInodeSet
 import Sqfs.Proofs.EncDirIndex
 import Sqfs.Proofs.EncTables
 import Sqfs.Proofs.EncMetaPos
 import Sqfs.Proofs.EncXattr
 import Sqfs.Proofs.EncXattrRec
+import Sqfs.Proofs.EncXattrRef
+import Sqfs.Proofs.EncXattrLoc
+import Sqfs.Proofs.EncXattrE2E
 import Sqfs.Proofs.EncTree
+import Sqfs.Proofs.EncTreeAll4
 import Sqfs.Proofs.PackContent2
 namespace Sqfs.C01
 open Sqfs.Enc Sqfs.Consts
@@ -28,13 +33,17 @@ theorem inode_roundtrip (bs : Nat) (i : Inode) (rest : Bytes) (h : WfInode bs i)
     decInode bs (encInode i ++ rest) = .ok (i, rest) :=
   decInode_encInode bs i rest h
 
-example : WfInode 1048576 (.fileExt ⟨0o100644, 3, 65535, 0xFFFFFFFF, 7⟩ (2 ^ 32) (2 ^ 32 + 5) 4096 2 0xFFFFFFFF 0xFFFFFFFF 5
+theorem exWfFile : WfInode 1048576 (.fileExt ⟨0o100644, 3, 65535, 0xFFFFFFFF, 7⟩ (2 ^ 32) (2 ^ 32 + 5) 4096 2 0xFFFFFFFF 0xFFFFFFFF 5
     (List.replicate 4097 0)) := by
   refine ⟨by decide, by decide, by decide, by decide, by decide, by decide, by decide, by decide, ?_, ?_⟩
   · rw [List.length_replicate]; decide
   · intro w hw; rw [List.eq_of_mem_replicate hw]; decide
-example : WfInode 4096 (.dirExt ⟨0o40755, 0, 0, 1, 9⟩ 3 70000 8194 1 2 100 NONE32 [⟨0, 0, [0x61]⟩, ⟨8000, 8194, [0xff, 0x62]⟩]) := by decide
-example : WfInode 131072 (.slink ⟨0o120777, 1, 2, 3, 4⟩ 1 5 [0x2f, 0x80, 0xff, 0x20, 0x22]) := by decide
+theorem exWfDir : WfInode 4096 (.dirExt ⟨0o40755, 0, 0, 1, 9⟩ 3 70000 8194 1 2 100 NONE32 [⟨0, 0, [0x61]⟩, ⟨8000, 8194, [0xff, 0x62]⟩]) := by decide
+theorem exWfSlink : WfInode 131072 (.slink ⟨0o120777, 1, 2, 3, 4⟩ 1 5 [0x2f, 0x80, 0xff, 0x20, 0x22]) := by decide
+-- the theorem applied: a 4 GiB+ file inode with 4097 block words, an extended directory with an index, a symlink
+example := inode_roundtrip _ _ [0xAA] exWfFile
+example := inode_roundtrip _ _ [] exWfDir
+example := inode_roundtrip _ _ [1, 2] exWfSlink
 
 /-- `serialize_tree_node` **establishes** the well-formedness the round trip needs: from an inode that is well
 formed (as produced by the directory writer / block processor / `tree_node_to_inode`), node attributes within their
@@ -46,8 +55,10 @@ theorem serialize_establishes_wf (bs : Nat) (isDir isReg : Bool) (a : NodeAttr) 
     WfInode bs (setIds uid gid (serializeInode isDir isReg a i0)) :=
   serialize_wf' bs isDir isReg a uid gid i0 h0 hm ht hn hl hx hu hg
 
-example : WfBody 4096 (.file ⟨0, 0, 0, 0, 0⟩ 96 NONE32 NONE32 5000 [4096, 904]) ∧
-    (⟨0o100600, 17, 12, 3, 0⟩ : NodeAttr).mode / 4096 * 4096 = (Inode.file ⟨0, 0, 0, 0, 0⟩ 96 NONE32 NONE32 5000 [4096, 904]).typeBits := by decide
+-- the theorem applied: a two-block file with three links and xattr index 0 (so it is promoted), ids 65535 and 0
+example := serialize_establishes_wf 4096 false true ⟨0o100600, 17, 12, 3, 0⟩ 65535 0
+  (.file ⟨0, 0, 0, 0, 0⟩ 96 NONE32 NONE32 5000 [4096, 904]) (by decide) ⟨by decide, by decide⟩ (by decide) (by decide)
+  (by decide) (by decide) (by decide) (by decide)
 
 /-- **basic ↔ extended are inverse where both apply** (`sqfs_inode_make_extended` repaired, see `Witness`):
 (1) basic → extended → basic is the identity on every well-formed basic inode; (2) extended → basic → extended is the
@@ -62,7 +73,10 @@ theorem make_extended_basic_inverse :
     ∧ (∀ i : Inode, (makeExtended i).view = i.view) ∧ (∀ i : Inode, 1 ≤ i.nlink → (makeBasic i).view = i.view) :=
   ⟨makeBasic_makeExtended, makeExtended_makeBasic, makeExtended_view, makeBasic_view⟩
 
-example : (Inode.ipc ⟨0o10644, 0, 0, 0, 1⟩ false 1).isExt = false ∧ WfInode 4096 (Inode.ipc ⟨0o10644, 0, 0, 0, 1⟩ false 1) := by decide
+-- (1) applied to a basic fifo, (2) applied to an extended one-link file without xattrs
+example := make_extended_basic_inverse.1 4096 (Inode.ipc ⟨0o10644, 0, 0, 0, 1⟩ false 1) (by decide) (by decide)
+example := make_extended_basic_inverse.2.1 (.fileExt ⟨0o100644, 1, 2, 3, 4⟩ 96 100 0 1 NONE32 NONE32 NONE32 [100])
+  (by decide) (by decide) (fun _ _ _ _ _ _ _ _ _ h => by cases h) (fun _ _ _ _ _ _ _ _ _ h => by cases h; rfl)
 
 /-- **The basic/extended selection is safe and minimal.**
 * regular files: the inode written carries exactly the wanted link count, xattr index, mode, time stamp, inode number
@@ -90,6 +104,42 @@ theorem selection_minimal_and_safe (a : NodeAttr) :
 example : (serializeInode false true ⟨0o100644, 9, 4, 2, NONE32⟩
       (.fileExt ⟨0, 0, 0, 0, 0⟩ 96 (5 * 2 ^ 30) 4096 1 NONE32 NONE32 NONE32 [])).view
     = ⟨sIFREG, ⟨0o100644, 0, 0, 9, 4⟩, 2, NONE32, [96, 5 * 2 ^ 30, 4096, NONE32, NONE32], [], []⟩ := by decide
+-- clause 1 applied to that file, and to a basic one (where the 32-bit premise is a real obligation)
+example := (selection_minimal_and_safe ⟨0o100644, 9, 4, 2, NONE32⟩).1
+  (.fileExt ⟨0, 0, 0, 0, 0⟩ 96 (5 * 2 ^ 30) 4096 1 NONE32 NONE32 NONE32 []) (by decide) (by decide) (fun _ _ _ _ _ _ h => by cases h)
+example := (selection_minimal_and_safe ⟨0o100644, 9, 4, 1, NONE32⟩).1
+  (.file ⟨0, 0, 0, 0, 0⟩ 96 NONE32 NONE32 5000 [4096, 904]) (by decide) (by decide)
+  (fun _ _ _ _ _ _ h => by cases h; exact ⟨by decide, by decide⟩)
+
+/-- **`sqfs_inode_set_file_size` / `sqfs_inode_set_file_block_start` never truncate** (inode.c:241-298, the two stores
+the block processor makes into a file inode).  Whatever the inode was — basic or extended — and whatever 64-bit value
+is stored: the reader-visible size (resp. block start) afterwards is exactly that value and nothing else a reader sees
+changes (for an inode with at least one link); a value of 2³² or more **makes the inode extended**; and a basic file
+inode has both fields within 32 bits afterwards if it had before (`FileFits`) — which is the premise
+`selection_minimal_and_safe` takes for basic file inodes, here established from the code that produces them. -/
+theorem file_size_start_no_truncation (v : Nat) (i i' : Inode) :
+    (setFileSize v i = some i' →
+      i'.view.nums = i.view.nums.set 1 v
+      ∧ i'.view.typeBits = i.view.typeBits ∧ i'.view.base = i.view.base ∧ i'.view.xattr = i.view.xattr
+      ∧ i'.view.words = i.view.words ∧ i'.view.bytes = i.view.bytes
+      ∧ (1 ≤ i.view.nlink → i'.view.nlink = i.view.nlink)
+      ∧ (v > 0xFFFFFFFF → i'.isExt = true) ∧ (FileFits i → FileFits i'))
+    ∧ (setFileBlockStart v i = some i' →
+      i'.view.nums = i.view.nums.set 0 v
+      ∧ i'.view.typeBits = i.view.typeBits ∧ i'.view.base = i.view.base ∧ i'.view.xattr = i.view.xattr
+      ∧ i'.view.words = i.view.words ∧ i'.view.bytes = i.view.bytes
+      ∧ (1 ≤ i.view.nlink → i'.view.nlink = i.view.nlink)
+      ∧ (v > 0xFFFFFFFF → i'.isExt = true) ∧ (FileFits i → FileFits i')) :=
+  ⟨setFileSize_spec v i i', setFileBlockStart_spec v i i'⟩
+
+-- applied: a basic file inode given a 5 GiB size is promoted; an extended one given a data start beyond 4 GiB stays
+-- extended; an extended one whose size drops to 10 bytes (and that has nothing else to keep it extended) is demoted
+example := (file_size_start_no_truncation (5 * 2 ^ 30) (.file ⟨0o100644, 1, 2, 3, 4⟩ 96 NONE32 NONE32 100 [100]) _).1 rfl
+example := (file_size_start_no_truncation (2 ^ 32 + 96) (.fileExt ⟨0o100644, 1, 2, 3, 4⟩ 96 100 0 1 NONE32 NONE32 NONE32 [100]) _).2 rfl
+example : setFileSize 10 (.fileExt ⟨0o100644, 1, 2, 3, 4⟩ 96 (5 * 2 ^ 30) 0 1 NONE32 NONE32 NONE32 [])
+    = some (.file ⟨0o100644, 1, 2, 3, 4⟩ 96 NONE32 NONE32 10 []) := by decide
+example : setFileSize (5 * 2 ^ 30) (.file ⟨0o100644, 1, 2, 3, 4⟩ 96 NONE32 NONE32 100 [100])
+    = some (.fileExt ⟨0o100644, 1, 2, 3, 4⟩ 96 (5 * 2 ^ 30) 0 1 NONE32 NONE32 NONE32 [100]) := by decide
 
 /-! ## directory listings -/
 
@@ -105,8 +155,9 @@ theorem dir_listing_roundtrip (c blk off : Nat) (ents : List DEnt) (rest : Bytes
       = .ok (ents.map DEnt.toEntry) :=
   readListing_encListing c blk off ents rest hwf
 
-example : ∀ e ∈ [(⟨(8194 <<< 16) ||| 40, 70000, 2, [0x61, 0xff]⟩ : Sqfs.DirWriter.DEnt), ⟨32, 5, 1, [0x62]⟩, ⟨64, 40000, 7, [0x63]⟩], WfDEnt e := by
-  decide
+-- the theorem applied: three entries that need three headers (other inode block; inode-number delta > 32767)
+example := dir_listing_roundtrip 8194 0 8000
+  [(⟨(8194 <<< 16) ||| 40, 70000, 2, [0x61, 0xff]⟩ : Sqfs.DirWriter.DEnt), ⟨32, 5, 1, [0x62]⟩, ⟨64, 40000, 7, [0x63]⟩] [0xEE] (by decide)
 
 open Sqfs.DirWriter (DEnt Run dirEnd encodeRun runBytes advance) in
 /-- **The directory index points at headers**: every index entry built by `sqfs_dir_writer_create_inode` (one per
@@ -121,6 +172,10 @@ theorem dir_index_points_at_headers (c blk off : Nat) (ents : List DEnt) (k : Na
 
 example : (Sqfs.DirWriter.dirEnd 8194 0 8000 [⟨0, 1, 2, [0x61]⟩, ⟨8194 <<< 16, 2, 2, [0x62]⟩]).map
       (fun r => (r.ents.length, r.startBlock, r.inodeNumber, r.index, r.block)) = [(1, 0, 1, 0, 0), (1, 8194, 2, 21, 0)] := by decide
+-- the theorem applied to the second run of that listing (the hypothesis `h` is met: there is a run 1)
+example (r : Sqfs.DirWriter.Run) (h : (Sqfs.DirWriter.dirEnd 8194 0 8000 [⟨0, 1, 2, [0x61]⟩, ⟨8194 <<< 16, 2, 2, [0x62]⟩])[1]? = some r) :=
+  dir_index_points_at_headers 8194 0 8000 _ 1 r (by decide) h
+example : ((Sqfs.DirWriter.dirEnd 8194 0 8000 [⟨0, 1, 2, [0x61]⟩, ⟨8194 <<< 16, 2, 2, [0x62]⟩])[1]?).isSome = true := by decide
 
 /-! ## metadata streams -/
 
@@ -130,7 +185,7 @@ theorem meta_stream_roundtrip {cmp : Codec} {unc : Unc} (hc : CodecOk cmp unc) (
     metaReadAll unc (encBlocks (Sqfs.MetaWriter.run cmp chunks).out) = .ok chunks.flatten :=
   metaReadAll_run hc chunks
 
-example : CodecOk (fun x => if x = [1, 1, 1, 1] then some [9] else none) (fun y => if y = [9] then some [1, 1, 1, 1] else none) := by
+theorem exCodecOk : CodecOk (fun x => if x = [1, 1, 1, 1] then some [9] else none) (fun y => if y = [9] then some [1, 1, 1, 1] else none) := by
   constructor
   · intro x c h
     by_cases hx : x = [1, 1, 1, 1]
@@ -140,6 +195,12 @@ example : CodecOk (fun x => if x = [1, 1, 1, 1] then some [9] else none) (fun y 
     by_cases hx : x = [1, 1, 1, 1]
     · simp only [hx, if_true, Option.some.injEq] at h; subst h; simp [hx]
     · simp [hx] at h
+
+theorem codecOk_none : CodecOk (fun _ => none) (fun _ => none) := ⟨fun _ _ h => (by cases h), fun _ _ h _ => (by cases h)⟩
+
+-- the theorem applied: a compressing codec meeting the contract, and the never-shrinking one
+example := meta_stream_roundtrip exCodecOk [[1, 1, 1, 1], [2, 3]]
+example := meta_stream_roundtrip codecOk_none [List.replicate 8000 7, List.replicate 400 8]
 
 /-- **A reference produced by the writer reads back the bytes written there.**  For any run of appends and any codec
 pair meeting the contract: (1) the position `sqfs_meta_writer_get_position` reports after the first `k` appends is the
@@ -160,6 +221,8 @@ theorem meta_ref_roundtrip {cmp : Codec} {unc : Unc} (hc : CodecOk cmp unc) (chu
   have := metaReadAt_refOfPos hc _ hok (run_full cmp chunks) p n (by rw [hraw]; exact hp) (by rw [hraw]; exact hn)
   rw [hraw] at this
   exact this
+
+example := meta_ref_roundtrip exCodecOk [[1, 1, 1, 1], [2, 3]]
 
 /-! ## tables and super block -/
 
@@ -194,6 +257,11 @@ theorem export_table_roundtrip {cmp : Codec} {unc : Unc} (hc : CodecOk cmp unc) 
 
 example : (writeTableAt (fun _ => none) [0xEE, 0xEE] [1, 2, 3]).1 = [0xEE, 0xEE, 3, 0x80, 1, 2, 3, 2, 0, 0, 0, 0, 0, 0, 0]
     ∧ (writeTableAt (fun _ => none) [0xEE, 0xEE] [1, 2, 3]).2 = 7 := by decide
+-- the four table theorems applied (every hypothesis discharged)
+example := table_roundtrip codecOk_none [0xEE, 0xEE] [1, 2, 3] (by decide)
+example := id_table_roundtrip codecOk_none [0xEE] [0, 1000, 4294967295] (by decide) (by decide) (by decide)
+example := frag_table_roundtrip codecOk_none [] [(96, 0x1000123), (5000, 77)] (by decide) (by decide)
+example := export_table_roundtrip codecOk_none [0xEE] [0x20, (8194 <<< 16) ||| 40] (by decide) (by decide)
 
 open Sqfs.Writer in
 /-- **Super block round trip**: `sqfs_super_read` returns the super block `sqfs_super_write` stored, for every super
@@ -224,34 +292,119 @@ def exampleSuper : Sqfs.Writer.Super where
   fragStart := 2000
   exportStart := 2500
 
-example : SuperValid exampleSuper := ⟨by decide, by decide, by decide, by decide, by decide, by decide, by decide, by decide⟩
+theorem exSuperValid : SuperValid exampleSuper := ⟨by decide, by decide, by decide, by decide, by decide, by decide, by decide, by decide⟩
+example := super_roundtrip exampleSuper [0xEE] exSuperValid
 
 /-! ## extended attributes -/
 
-/-- **xattr round trip (flush → read).**  `w` is any state of the xattr writer in which every recorded pair is
-representable (known prefix, key remainder < 64 KiB, value < 4 GiB); `(refOf, posOf)` any reference encoding in which
-the reader's seek undoes the writer's `get_position` (`meta_ref_roundtrip` provides it for metadata blocks).  Then
-reading set index `j` from the flushed key/value and descriptor streams yields exactly the pairs of set `j` as the
-writer stores them (sorted by key/value index, duplicates of a key replaced, equal sets stored once —
-`xattr_record_index`), keys with their prefix, values byte for byte, whether stored in line or **out of line**
-(a value seen before, referenced ≥ 2 times and longer than 8 bytes), for **any number of sets** (multiples of 512
-included: the descriptor stream is read flat here, its location array is `xattr_loc_index_lt_count`). -/
-theorem xattr_roundtrip (refOf : Nat → Nat) (posOf : Nat → Option Nat) (hr : RefOk refOf posOf) (w : XWriter)
+/-- **xattr round trip (flush → read, through the id table's location array).**  `w` is any state of the xattr writer
+in which every recorded pair is representable (known prefix, key remainder < 64 KiB, value < 4 GiB) — every state
+`recordAll` reaches (`xattr_input_roundtrip` derives `hp`, `hcount` instead of assuming them); `(refOf, posOf)` any
+reference encoding in which the reader's seek undoes the writer's `get_position` **on the positions below the finished
+stream's length** (`xattr_refs_ok`: the real arithmetic satisfies this).  `xattrFlush` writes the key/value stream, the
+descriptors into metadata blocks (any codec meeting the contract) and the array of block start offsets; the reader
+(`XFlush.reader`, the algorithm of `sqfs_xattr_reader_get_desc`/`read_key`/`read_value`) finds descriptor `j` through
+`locations[j * 16 / 8192]`, seeks, and reads exactly the pairs of set `j` as the writer stores them: keys with their
+prefix, values byte for byte, in line or **out of line**, for **any number of sets** (multiples of 512 included). -/
+theorem xattr_roundtrip {cmp : Codec} {unc : Unc} (hc : CodecOk cmp unc) (refOf : Nat → Nat) (posOf : Nat → Option Nat)
+    (bound : Nat) (hr : RefOk refOf posOf bound) (w : XWriter)
+    (hbound : (flushKv refOf w).1.length ≤ bound) (hkv32 : (flushKv refOf w).1.length < 2 ^ 32)
+    (hpairs32 : w.pairs.length < 2 ^ 32)
     (hp : ∀ b ∈ w.blocks, ∀ p ∈ blockPairs w.pairs b, PairOk w p)
-    (hfit : ∀ d ∈ (flushKv refOf w).2, d.count < 2 ^ 32 ∧ d.size < 2 ^ 32)
     (hcount : ∀ b ∈ w.blocks, (blockPairs w.pairs b).length = b.2)
     (j : Nat) (hj : j < w.blocks.length) (hj32 : j ≠ NONE32) :
-    readSet ⟨(flushKv refOf w).1, encDescs (flushKv refOf w).2, w.blocks.length, posOf⟩ j = .ok (w.setOf j) :=
-  readSet_flush refOf posOf hr w hp hfit hcount j hj hj32
+    readSet ((xattrFlush cmp refOf w).reader unc posOf) j = .ok (w.setOf j) :=
+  readSet_xattrFlush hc refOf posOf bound hr w hbound hkv32 hpairs32 hp hcount j hj hj32
 
--- two sets sharing a 9-byte value: the second copy is stored out of line (a reference to position 5) and reads back
+/-- **The reference contract of `xattr_roundtrip` holds for the real arithmetic**: (1) uncompressed metadata
+(`rawRef`/`rawPos`, what the unit correspondence runs), any stream below 2⁴⁷ bytes; (2) the blocks of **any** meta
+writer run, whatever the compressed sizes: `refOfPos` packed into a 64-bit reference, undone by searching the position
+(`posOfBlocks`), for every position up to the stream's length. -/
+theorem xattr_refs_ok :
+    (∀ bound, bound < 2 ^ 47 → RefOk rawRef rawPos bound)
+    ∧ (∀ (cmp : Codec) (blocks : List Sqfs.MetaWriter.Block), BlocksOk cmp blocks → startOf blocks blocks.length < 2 ^ 48 →
+        RefOk (refOfBlocks blocks) (posOfBlocks blocks (rawOf blocks).length) (rawOf blocks).length) :=
+  ⟨refOk_raw, refOk_blocks⟩
+
+/-- **The xattr clause from the input to the read-back.**  `sets` are the key/value strings handed to
+`begin`/`add_kv`…/`end`, one list per inode.  If every key has a known prefix and a remainder < 64 KiB and every value
+is < 4 GiB, the writer accepts them all (interning keys and values, replacing the value of a key added twice, sorting
+each set, storing equal sets once); and if the finished key/value stream, the pair array and the number of distinct
+sets fit their 32-bit fields, then reading the index handed out for the k-th inode — descriptor through the location
+array, key/value pairs, out-of-line values — returns the k-th input set with later values of a key replacing earlier
+ones (`canonSet`) in the writer's order, a permutation of it; an inode whose set is empty gets `0xFFFFFFFF`. -/
+theorem xattr_input_roundtrip {cmp : Codec} {unc : Unc} (hc : CodecOk cmp unc) (refOf : Nat → Nat) (posOf : Nat → Option Nat)
+    (bound : Nat) (hr : RefOk refOf posOf bound) (sets : List (List (Bytes × Bytes)))
+    (hs : ∀ s ∈ sets, ∀ kv ∈ s, KvOk kv) :
+    ∃ wF idxs, recordAll {} sets = .ok (wF, idxs) ∧ idxs.length = sets.length ∧
+      ((flushKv refOf wF).1.length ≤ bound → (flushKv refOf wF).1.length < 2 ^ 32 → wF.pairs.length < 2 ^ 32 →
+        wF.blocks.length ≤ NONE32 →
+        ∀ k, k < sets.length →
+          (canonSet (sets.getD k []) = [] ∧ idxs.getD k 0 = NONE32) ∨
+          (canonSet (sets.getD k []) ≠ [] ∧ idxs.getD k 0 ≠ NONE32 ∧
+            ∃ out, readSet ((xattrFlush cmp refOf wF).reader unc posOf) (idxs.getD k 0) = .ok out
+              ∧ out = (sortPairs ((canonSet (sets.getD k [])).map (idxPair wF))).map (strPair wF)
+              ∧ out.Perm (canonSet (sets.getD k [])))) :=
+  recordAll_flush_read hc refOf posOf bound hr sets hs
+
+/-- four inodes: one value shared by three sets (stored out of line from its second use on), an empty set, a key set
+twice, and a last set equal to the first after replacement -/
+def exampleSets : List (List (Bytes × Bytes)) :=
+  let k1 : List UInt8 := prefixUser ++ [0x61]; let k2 : List UInt8 := prefixTrusted ++ [0x62]
+  let v : List UInt8 := [1, 2, 3, 4, 5, 6, 7, 8, 9]
+  [[(k1, v)], [], [(k2, v), (k1, []), (k2, v)], [(k1, [5]), (k1, v)]]
+
+-- `xattr_input_roundtrip` instantiated: every hypothesis discharged for `exampleSets`, uncompressed metadata and
+-- the real reference arithmetic; the conclusion, evaluated, is the four sets read back (the third one with its
+-- shared value stored **out of line**: the stream holds a reference to position 5 at offset 27)
 example :
-    let k1 : List UInt8 := prefixUser ++ [0x61]; let k2 : List UInt8 := prefixTrusted ++ [0x62]
-    let v : List UInt8 := [1, 2, 3, 4, 5, 6, 7, 8, 9]
-    ∃ w idx, recordAll {} [[(k1, v)], [(k2, v), (k1, [])]] = .ok (w, idx) ∧ idx = [0, 1] ∧
-      (flushKv id w).1.drop 27 = encKey k2 true ++ encValueOol 5 ∧
-      readSet ⟨(flushKv id w).1, encDescs (flushKv id w).2, 2, fun r => some r⟩ 1 = .ok [(k1, []), (k2, v)] :=
-  ⟨_, _, rfl, by decide, by decide, by decide⟩
+    ∃ wF, recordAll {} exampleSets = .ok (wF, [0, NONE32, 1, 0])
+      ∧ (flushKv rawRef wF).1.drop 27 = encKey (prefixTrusted ++ [0x62]) true ++ encValueOol (rawRef 5)
+      ∧ [0, 1].map (readSet ((xattrFlush (fun _ => none) rawRef wF).reader (fun _ => none) rawPos))
+          = [.ok [(prefixUser ++ [0x61], [1, 2, 3, 4, 5, 6, 7, 8, 9])],
+             .ok [(prefixUser ++ [0x61], []), (prefixTrusted ++ [0x62], [1, 2, 3, 4, 5, 6, 7, 8, 9])]] := by
+  obtain ⟨wF, idxs, hrec, _, hread⟩ := xattr_input_roundtrip codecOk_none rawRef rawPos 44 (refOk_raw 44 (by decide))
+    exampleSets (by decide)
+  have hval : recordAll {} exampleSets = .ok (⟨[prefixUser ++ [0x61], prefixTrusted ++ [0x62]],
+      [([1, 2, 3, 4, 5, 6, 7, 8, 9], 4), ([], 1), ([5], 0)], [(0, 0), (0, 1), (1, 0)], 3, [(0, 1), (1, 2)]⟩, [0, NONE32, 1, 0]) := by
+    decide
+  rw [hval] at hrec
+  injection hrec with hrec
+  injection hrec with hw hi
+  subst hw; subst hi
+  have h := hread (by decide) (by decide) (by decide) (by decide)
+  refine ⟨_, hval, by decide, ?_⟩
+  have h0 := h 0 (by decide)
+  have h2 := h 2 (by decide)
+  rcases h0 with ⟨_, h0⟩ | ⟨_, _, out0, r0, e0, _⟩
+  · exact absurd h0 (by decide)
+  rcases h2 with ⟨_, h2⟩ | ⟨_, _, out2, r2, e2, _⟩
+  · exact absurd h2 (by decide)
+  simp only [List.map_cons, List.map_nil]
+  have i0 : [0, NONE32, 1, 0].getD 0 0 = 0 := rfl
+  have i2 : [0, NONE32, 1, 0].getD 2 0 = 1 := rfl
+  rw [i0] at r0; rw [i2] at r2
+  rw [r0, r2, e0, e2]
+  decide
+
+-- and `xattr_roundtrip` itself for that writer state, with the invariant's facts (`hp`, `hcount`) supplied by
+-- `recordAll_spec` rather than assumed
+example (wF : XWriter) (idxs : List Nat) (h : recordAll {} exampleSets = .ok (wF, idxs)) :
+    readSet ((xattrFlush (fun _ => none) rawRef wF).reader (fun _ => none) rawPos) 1 = .ok (wF.setOf 1) := by
+  obtain ⟨wF', idxs', hrec, hinv, _⟩ := recordAll_spec exampleSets {} xinv_empty (by decide)
+  rw [h] at hrec
+  injection hrec with hrec
+  injection hrec with hw _
+  subst hw
+  have hval : recordAll {} exampleSets = .ok (⟨[prefixUser ++ [0x61], prefixTrusted ++ [0x62]],
+      [([1, 2, 3, 4, 5, 6, 7, 8, 9], 4), ([], 1), ([5], 0)], [(0, 0), (0, 1), (1, 0)], 3, [(0, 1), (1, 2)]⟩, [0, NONE32, 1, 0]) := by
+    decide
+  rw [hval] at h
+  injection h with h
+  injection h with hw _
+  subst hw
+  exact xattr_roundtrip codecOk_none rawRef rawPos 44 (refOk_raw 44 (by decide)) _ (by decide) (by decide) (by decide)
+    hinv.pairOk hinv.count 1 (by decide) (by decide)
 
 /-- **Which index `sqfs_xattr_writer_end` hands out** (set dedup, sorting).  With the blocks recorded so far lying in
 front of `kv_start` (true from the empty writer on, and re-established here): an empty set gets `0xFFFFFFFF`; a
@@ -281,24 +434,50 @@ def exampleXWriter : XWriter where
 -- sorted, found equal to block 0, stored once: index 0, the pair array shrinks back
 example : (endSet exampleXWriter).2 = 0 ∧ (endSet exampleXWriter).1.pairs = [(0, 0), (1, 1)]
     ∧ (endSet exampleXWriter).1.blocks = [(0, 2)] := by decide
+example := xattr_record_index exampleXWriter (by decide) (by decide)
 
-/-- **Index safety of `locations[]`** in the (repaired) `write_id_table`: every store has an index below the number
-of slots `alloc_location_table` provided — for every number of sets, multiples of 512 included, and every block
-layout (`blockAfter`).  The code as it is in /repo violates this: `Witness.xattr_locations_overflow`. -/
-theorem xattr_loc_index_lt_count (blockAfter : Nat → Nat) (n : Nat) (hn : 0 < n) :
-    ∀ s ∈ locStores (some (locCount n)) blockAfter n, s.1 < locCount n :=
-  locStores_lt blockAfter n hn
+/-- **`locations[]` of the xattr id table: every store in range, and the table complete.**  (1) In the (repaired)
+`write_id_table` every store has an index below the number of slots `alloc_location_table` provided — for every number
+of sets, multiples of 512 included, and every block layout (`blockAfter`); the code before the repair violated this:
+`Witness.xattr_locations_overflow`.  (2) For every writer state with at least one set and every codec, the array
+written has exactly one entry per descriptor metadata block — `locCount n` of them — and entry `k` is the start offset
+of block `k`: nothing the reader's `locations[idx * 16 / 8192]` can ask for is missing or stale. -/
+theorem xattr_loc_index_lt_count :
+    (∀ (blockAfter : Nat → Nat) (n : Nat), 0 < n → ∀ s ∈ locStores (some (locCount n)) blockAfter n, s.1 < locCount n)
+    ∧ (∀ (cmp : Codec) (refOf : Nat → Nat) (w : XWriter), 0 < (flushKv refOf w).2.length →
+        (xattrFlush cmp refOf w).locs
+            = (List.range (xattrFlush cmp refOf w).idBlocks.length).map (startOf (xattrFlush cmp refOf w).idBlocks)
+        ∧ (xattrFlush cmp refOf w).idBlocks.length = locCount (xattrFlush cmp refOf w).descs.length) :=
+  ⟨locStores_lt, fun cmp refOf w hn => xattrFlush_locs cmp refOf w hn⟩
+
+-- 1025 sets need three slots; the stores of the repaired code are exactly slots 0, 1, 2 (instantiates (1) with n = 1025)
+example : (locStores (some (locCount 1025)) (fun k => k / 512 * 8194) 1025).map (·.1) = [0, 1, 2] ∧ locCount 1025 = 3
+    ∧ 0 < 1025 := by set_option maxRecDepth 100000 in decide
 
 /-! ## file contents -/
 
 open Sqfs.Pack in
-/-- **File contents read back** (re-export of C17/C08's theorem under the C01 name): for every block size, flag
-set, order and codec meeting the contract, reading file `i` from the `specPack` layout — block list, holes, tail in a
-fragment block, deduplicated or not — yields exactly the file's bytes. -/
+/-- **File contents read back — at specification level** (re-export of C17/C08's theorem under the C01 name): for every
+block size, flag set, order and codec meeting the contract, reading file `i` from the `specPack` layout — block list,
+holes, tail in a fragment block, deduplicated or not — with the *specification* reader `readFile` yields exactly the
+file's bytes.  What this is **not**: a statement about the models of the code.  Those are, on the writer's side, C02/C08's
+block processor (`Sqfs.C02.run_eq_spec`: for every backlog the real processor computes `packRef`; `Sqfs.C08.stream_readback`,
+`stream_frag_link`: the output file holds every file's stored blocks and every fragment block at the recorded places) and,
+on the reader's side, C10's `DataReader.readSpec` = `sqfs_data_reader_read` (`Sqfs.C10.written_file_content`: for an inode
+and data satisfying `DataReader.Written` it returns the blocks' bytes followed by the tail;
+`read_eq_blocks_plus_fragment`, `stream_eq_read`: the other two reading APIs agree).  **Missing links**, neither proved
+here nor elsewhere: `packRef = specPack` (C02 `run_eq_specPack_partial` states what is missing) and `DataReader.Written`
+for the inodes/file/fragment table of `specPack` (or of `packRef`).  They are exercised on every run: C02/C17's ties
+compare the real processor with `packRef` and `specPack`; C01's tool paths (a), (d), (e) read every file's bytes back. -/
 theorem file_content_roundtrip (P : Params) (hB : 0 < P.B) (hc : P.codec.Ok) (files : List InFile) (i : Nat)
     (h : i < files.length) :
     ∃ r, (specPack P files).files[i]? = some r ∧ readFile P (specPack P files) r = files[i].data :=
   readFile_specPack P hB hc files i h
+
+-- the theorem applied: block size 4, a file with a hole block and a tail, a duplicate of it, a never-shrinking codec
+example := file_content_roundtrip ⟨4, 96, ⟨fun _ => none, id⟩, fun _ => 0⟩ (by decide)
+  ⟨fun _ _ h => (by cases h), fun _ _ h => (by cases h)⟩
+  [⟨{}, [1, 2, 3, 4, 0, 0, 0, 0, 5]⟩, ⟨{}, [1, 2, 3, 4, 0, 0, 0, 0, 5]⟩] 1 (by decide)
 
 /-! ## refusing what the format cannot represent -/
 
@@ -362,30 +541,16 @@ example : IdsRepresentable [0, 1000, 0, 1000, 4294967295] := by
 
 /-! ## the tree -/
 
-/-
-Full statement (kept visible; `Sqfs.Enc.serializeTree` = `sqfs_serialize_fstree` after `fstree_post_process`,
-`Sqfs.Enc.readTree` = a walk with the library's readers from the root reference, `normalise` = the tree as a reader
-must see it: hard links as further names of their target's inode):
-
-  theorem parse_serialize (t : FsTree.Result) (x : TreeExtra) (out : TreeOut) :
-      Representable t x → serializeTree t x = .ok out → readTree out = .ok (normalise t x)
-
-What is proved is the per-node step and its composition with the round trips above; the induction over the whole inode
-list is not (see `parse_serialize_partial`).
--/
-
-/-- **Tree level, partial**: every step of `sqfs_serialize_fstree` reads back.  For any writer state `st` (streams and
-id table so far) and any node `n` within its C types (`NodeInOk`) that the serializer accepts: the inode stream grows by exactly `encInode` of a
-well-formed inode; that inode is read back by `decInode` from the reference the node was given (`rawRef` of the
+/-- **One step of `sqfs_serialize_fstree` reads back.**  For any writer state `st` (streams and id table so far) and
+any node `n` within its C types (`NodeInOk`) that the serializer accepts: the inode stream grows by exactly `encInode`
+of a well-formed inode; that inode is read back by `decInode` from the reference the node was given (`rawRef` of the
 position it was written at), from the finished stream or any extension of it; its reader-visible attributes are the
-node's (mode, time stamp, inode number, link count, xattr index; uid/gid through the id table indices); and for a
-directory the listing appended to the directory stream reads back, from the position stored in the inode and with the
-size stored in the inode, as the entries `(name, inode number, type, reference)` of its children in order.
-**Missing for the full statement**: the induction over `fs->inodes` showing that the reference stored in each
-directory entry is the position at which that child's inode was written (children and hard-link targets are written
-before the directories naming them: C03 `children_before_parent`, `reorder_hard_links`), and hence that the walk from
-the root reaches exactly `normalise t`.  The tree-level unit correspondence (`tree` op: real `fstree_post_process` +
-`sqfs_serialize_fstree` vs `serializeTree`, and the real readers on the result) exercises the composition. -/
+node's (mode, time stamp, inode number, link count, xattr index); **owner ids through the id table**: the inode's
+whole view is the node's attributes on top of the payload of `preInode` with two indices `ui`, `gi`, and the id table
+afterwards holds the node's uid at `ui` and its gid at `gi` (and is an extension of the table before, so this stays
+true to the end); and for a directory the listing appended to the directory stream reads back, from the position
+stored in the inode and with the size stored in the inode, as the entries `(name, inode number, type, reference)` of
+its children in order.  The composition over the whole inode list is `parse_serialize`. -/
 theorem parse_serialize_partial (bs : Nat) (st st' : TreeSt) (n : NodeIn) (later : Bytes)
     (hn : NodeInOk bs st n) (h : serializeNode st n = .ok st') :
     ∃ i, WfInode bs i ∧ st'.inodes = st.inodes ++ encInode i
@@ -395,16 +560,28 @@ theorem parse_serialize_partial (bs : Nat) (st st' : TreeSt) (n : NodeIn) (later
       ∧ (1 ≤ n.attr.linkCount → i.view.nlink = n.attr.linkCount ∧ i.view.xattr = n.attr.xattrIdx)
       ∧ (∀ ents, n.kind = .dir ents → ∃ des, addAllEntries ents = .ok des ∧
           st'.dirs = st.dirs ++ encListing rawCost (st.dirs.length / metaBlockSize * rawCost) (st.dirs.length % metaBlockSize) des
-          ∧ ∀ s, openDir i ((st'.dirs ++ later).drop st.dirs.length) = some s → readListing s = .ok (des.map DEnt.toEntry)) :=
-  serializeNode_readback bs st st' n later hn h
+          ∧ ∀ s, openDir i ((st'.dirs ++ later).drop st.dirs.length) = some s → readListing s = .ok (des.map DEnt.toEntry))
+      ∧ (1 ≤ n.attr.linkCount → ∃ i0 ui gi, preInode st n = some i0 ∧ i.view = withIds ui gi (wanted n.attr i0.view)
+          ∧ st'.ids[ui]? = some n.uid ∧ st'.ids[gi]? = some n.gid ∧ ∃ e, st'.ids = st.ids ++ e) := by
+  obtain ⟨i, a1, a2, a3, a4, a5, a6, a7, a8, a9⟩ := serializeNode_readback bs st st' n later hn h
+  refine ⟨i, a1, a2, a3, a4, a5, a6, a7, a8, a9, ?_⟩
+  intro hl
+  obtain ⟨i', i0, ui, gi, f1, _, _, f4, f5, _, f7, f8, f9, _⟩ := serializeNode_full bs st st' n later hn hl h
+  have : i' = i := by
+    have := f4.symm.trans a3
+    simp only [Except.ok.injEq, Prod.mk.injEq] at this
+    exact this.1
+  subst this
+  exact ⟨i0, ui, gi, f1, f5, f8, f9, f7⟩
 
--- a directory with a file entry and a hard-link entry to the same inode, written behind 100 bytes of directory stream
-example :
-    let st : TreeSt := { inodes := List.replicate 40 0, dirs := List.replicate 100 0, ids := [0] }
-    let n : NodeIn := ⟨⟨0o40755, 7, 3, 3, NONE32⟩, 1000, 0, 0, .dir [([0x61], 1, 0, 0o100644), ([0x62, 0xff], 1, 0, 0o100644)]⟩
-    ((serializeNode st n).toOption.map (fun s => (s.ids, s.dirs.length, s.inodes.length)) = some ([0, 1000], 100 + 12 + 9 + 10, 40 + 32))
-    ∧ NodeInOk 4096 st n := by
-  refine ⟨by set_option maxRecDepth 20000 in decide, ⟨by decide, by decide, by decide, by decide, by decide, by decide, ?_⟩⟩
+/-- the node of the example below: a directory with a file entry and a hard-link entry to the same inode, written
+behind 100 bytes of directory stream, owner 1000:0 with only id 0 in the table so far -/
+def exampleNodeSt : TreeSt := { inodes := List.replicate 40 0, dirs := List.replicate 100 0, ids := [0] }
+def exampleNode : NodeIn :=
+  ⟨⟨0o40755, 7, 3, 3, NONE32⟩, 1000, 0, 0, .dir [([0x61], 1, 0, 0o100644), ([0x62, 0xff], 1, 0, 0o100644)]⟩
+
+theorem exampleNode_ok : NodeInOk 4096 exampleNodeSt exampleNode := by
+  refine ⟨by decide, by decide, by decide, by decide, by decide, by decide, ?_⟩
   refine ⟨by decide, by decide, by decide, ?_⟩
   intro des h
   have h' : addAllEntries [([0x61], 1, 0, 0o100644), ([0x62, 0xff], 1, 0, 0o100644)]
@@ -412,5 +589,72 @@ example :
   rw [h'] at h
   cases h
   set_option maxRecDepth 20000 in decide
+
+-- the theorem applied: the node is accepted (new id 1000 appended), and everything above holds for the result
+example (st' : TreeSt) (h : serializeNode exampleNodeSt exampleNode = .ok st') :=
+  parse_serialize_partial 4096 exampleNodeSt st' exampleNode [] exampleNode_ok h
+example : (serializeNode exampleNodeSt exampleNode).toOption.map (fun s => (s.ids, s.dirs.length, s.inodes.length))
+    = some ([0, 1000], 100 + 12 + 9 + 10, 40 + 32) := by set_option maxRecDepth 20000 in decide
+
+open Sqfs.FsTree (Result lookup) in
+/-- **The whole tree reads back** (`sqfs_serialize_fstree` after `fstree_post_process`, metadata uncompressed,
+then `sqfs_dir_reader_get_root_inode` and recursively `open_dir`/`read`/`get_inode`).  `r` is the post-processed tree
+(`fs->inodes` in write order, link counts and inode numbers assigned, hard links resolved), `x` the xattr indices and
+the file inodes of the block processor.  If the input is `Representable` — `fs->inodes` lists every node once, the
+root included, children and hard-link targets before the directory naming them; every attribute within its C type;
+link counts ≥ 1; the two tables within the reach of a 32-bit `start_block` — and the serializer succeeds, then the walk
+from the root reference, with any amount of fuel that suffices to expand the input tree, succeeds and returns, entry by
+entry, exactly `normalise r x`: the same names in the same order under every directory; behind each name the inode with
+the node's type, permissions, modification time, inode number, link count, xattr index, device number / symlink target /
+file payload; **uid and gid resolved through the id table** (`Inode.resolve`: `ids[uid_idx]?` is `some` of the node's
+uid); a hard link as a further name of its target's inode (the same inode number; its subtree if a directory).
+By induction over `fs->inodes`: the reference stored in each directory entry is the position the child's inode was
+written at — `lookupRef`'s calloc default is never used —, the inode decodes from there (`inode_roundtrip`), the
+listing decodes from the position and with the size in the directory inode (`dir_listing_roundtrip`).
+
+**Not covered by this statement** (see `docs/design/C01-units.md`): that `fstree_post_process` establishes
+`orderOkB` (C03 `children_before_parent`/`link_targets_before_linking_dirs` prove it for C03's own numbering model;
+the unit correspondence evaluates `Representable` for every tree it generates); compressed metadata (the flat streams
+cut into blocks are `meta_stream_roundtrip`/`meta_ref_roundtrip`; their composition with this walk is exercised, not
+proved); super block and tables around the streams (`super_roundtrip`, `id_table_roundtrip`, …); the front ends. -/
+theorem parse_serialize (bs : Nat) (r : Result) (x : TreeExtra) (out : TreeOut)
+    (hrep : Representable bs r x out) (hser : serializeTree r x = .ok out) :
+    ∀ fuel v, normalise r x fuel = some v →
+      ∃ rn, readTree bs out fuel = .ok rn ∧ rn.resolve out.st.ids = v :=
+  serializeTree_readTree bs r x out hser hrep.order (fun p hp n hn => hrep.attrs p hp n hn) hrep.count hrep.inodes
+    hrep.dirs hrep.dirs2
+
+open Sqfs.FsTree in
+/-- `/a` (file, two links, xattr set 0), `/d/s` (symlink), `/d` (directory), `/h` (hard link to `/a`), owners 1000:100
+and 0:0, as `fstree_post_process` leaves them -/
+def exampleTree : Result where
+  tree := .mk [] ⟨0o40755, 0, 0, 5, 3, 0, false, false, .none⟩
+    [.mk [0x61] ⟨0o100644, 1000, 100, 7, 2, 0, false, false, .str [0x2f, 0x78]⟩ [],
+     .mk [0x64] ⟨0o40750, 1000, 0, 8, 2, 0, false, false, .none⟩
+       [.mk [0x73] ⟨0o120777, 0, 0, 9, 1, 0, false, false, .str [0x2e, 0x2e, 0x2f, 0x61]⟩ []],
+     .mk [0x68] ⟨0o120777, 0, 0, 0, 1, 0, false, true, .link [[0x61]] (some [[0x61]])⟩ []]
+  inodes := [[[0x61]], [[0x64], [0x73]], [[0x64]], []]
+  files := [[[0x61]]]
+
+def exampleExtra : TreeExtra where
+  xattrOf := fun p => if p = [[0x61]] then 0 else NONE32
+  fileInode := fun _ => .file ⟨0, 0, 0, 0, 0⟩ 96 NONE32 NONE32 5000 [4096, 904]
+
+-- `parse_serialize` applied: the serializer accepts the tree, the result is `Representable` (decided), `normalise`
+-- is defined with fuel 6, and the walk returns it
+theorem exampleTree_reads_back :
+    ∃ out v rn, serializeTree exampleTree exampleExtra = .ok out ∧ normalise exampleTree exampleExtra 6 = some v
+      ∧ readTree 4096 out 6 = .ok rn ∧ rn.resolve out.st.ids = v := by
+  have hrep : (match serializeTree exampleTree exampleExtra with
+      | .ok o => decide (Representable 4096 exampleTree exampleExtra o) | .error _ => false) = true := by
+    set_option maxRecDepth 100000 in decide
+  have hnorm : (normalise exampleTree exampleExtra 6).isSome = true := by set_option maxRecDepth 100000 in decide
+  cases hs : serializeTree exampleTree exampleExtra with
+  | error e => rw [hs] at hrep; cases hrep
+  | ok out =>
+    rw [hs] at hrep
+    obtain ⟨v, hv⟩ := Option.isSome_iff_exists.mp hnorm
+    obtain ⟨rn, h1, h2⟩ := parse_serialize 4096 exampleTree exampleExtra out (of_decide_eq_true hrep) hs 6 v hv
+    exact ⟨out, v, rn, rfl, hv, h1, h2⟩
 
 end Sqfs.C01
